@@ -182,8 +182,10 @@ def sanitize(module, snap=None, roundtrip=True, failure_path=False,
                 # zero-sized block created by the rewrite
                 pass
             others = [x for x in order if x is not b]
-            nxt = order[k + 1] if k + 1 < len(order) else None
-            prv = order[k - 1] if k else None
+            # (neighbours: the nearest blocks that have bytes; several
+            # zero-sized blocks at one place have no order among themselves)
+            nxt = next((x for x in order[k + 1:] if x.size), None)
+            prv = next((x for x in reversed(order[:k]) if x.size), None)
             reasons = []
             if any(True for _ in b.references) and not others:
                 reasons.append("symbols-and-only-block")
